@@ -31,7 +31,7 @@ var (
 func zxTable(fields core.Fields) (*table, *rowStore) {
 	clock := vtime.NewVirtualClock(time.Time{})
 	clock.Advance(zxNow)
-	db := &DB{opts: &DBOpts{}, clock: clock, Panic: func(e interface{}) { panic(e) }, tables: map[string]*table{}}
+	db := &DB{opts: &DBOpts{}, clock: clock, Panic: func(e interface{}) { panic(e) }, tables: map[string]*table{}, log: golog.LoggerFor("zxdb")}
 	t := &table{
 		TableOpts: &TableOpts{Name: "t", RetentionPeriod: time.Hour},
 		Query:     sql.Query{Resolution: time.Second},
@@ -237,3 +237,5 @@ func zxC13Scan() {
 	}
 	vrtReach("C13.S")
 }
+
+func rsLog() golog.Logger { return golog.LoggerFor("zx") }
